@@ -456,6 +456,42 @@ func (c *Ctx) bin(op Op, a, b *Term) *Term {
 		if a.op == OpAdd && a.a[0] == b {
 			return a.a[1]
 		}
+		if a.op == OpAdd || b.op == OpAdd {
+			// cancel common addends: (x + p) - (x + q) -> p - q
+			pa := c.addends(a, nil, 0)
+			pb := c.addends(b, nil, 0)
+			if len(pa) <= 8 && len(pb) <= 8 {
+				cancelled := false
+				for i := 0; i < len(pa); i++ {
+					for j := 0; j < len(pb); j++ {
+						if pa[i] != nil && pb[j] != nil && pa[i] == pb[j] && pa[i].op != OpConst {
+							pa[i], pb[j] = nil, nil
+							cancelled = true
+						}
+					}
+				}
+				if cancelled {
+					sum := func(l []*Term) *Term {
+						var r *Term
+						for _, t := range l {
+							if t == nil {
+								continue
+							}
+							if r == nil {
+								r = t
+							} else {
+								r = c.bin(OpAdd, r, t)
+							}
+						}
+						if r == nil {
+							r = c.BV(0, w)
+						}
+						return r
+					}
+					return c.bin(OpSub, sum(pa), sum(pb))
+				}
+			}
+		}
 	case OpMul:
 		if a.op == OpConst {
 			a, b = b, a
@@ -608,6 +644,15 @@ func (c *Ctx) bin(op Op, a, b *Term) *Term {
 		}
 	}
 	return c.mk(op, w, 0, "", a, b, nil)
+}
+
+// addends flattens nested additions.
+func (c *Ctx) addends(t *Term, out []*Term, depth int) []*Term {
+	if t.op == OpAdd && depth < 6 {
+		out = c.addends(t.a[0], out, depth+1)
+		return c.addends(t.a[1], out, depth+1)
+	}
+	return append(out, t)
 }
 
 func (c *Ctx) Add(a, b *Term) *Term  { return c.bin(OpAdd, a, b) }
